@@ -262,7 +262,12 @@ def _worker_job(key, job, roots, max_paths, deadline, seed, validate_cap, split_
             res["native_skipped"] += 1
         vals = model_values(m, x.names)
         if want_sample:
-            res["samples"].append(dict(trail="".join("T" if d else "F" for d in eng.trail[: eng.pos]), inputs=vals))
+            try:
+                ob_s = eval_obs(m, state["obs"])
+            except Exception:  # noqa
+                ob_s = None
+            res["samples"].append(dict(trail="".join("T" if d else "F" for d in eng.trail[: eng.pos]), inputs=vals, observation_under_model=ob_s,
+                                       obligations_discharged_on_this_path=[nm for nm, _ in obligations][:40]))
         if do_validate:
             try:
                 shadow_obs = eval_obs(m, state["obs"])
